@@ -71,13 +71,38 @@ def rand_cuts(rng, n):
     return [rng.choice([1, 2, 3]), 100000]
 
 
+END_KINDS = [0, 0, 0, 0, 1, 2, 3, 4, 5, 6, 7, 8, 9]     # see harness kindNames: EOF, plain, ErrUnexpectedEOF, net.ErrClosed,
+                                                       # os.ErrDeadlineExceeded, net.Error x (timeout, temporary), io.ErrClosedPipe
+
+
+def rand_empties(rng, n_hint=8):
+    """per-Read flags: True = that Read returns (0, nil)"""
+    if rng.random() < 0.55:
+        return []
+    k = rng.randrange(1, min(max(n_hint, 2), 14))
+    return [rng.random() < 0.4 for _ in range(k)]
+
+
+def decorate(rng, spec, n_hint=8):
+    """add the cross-cutting dimensions to a stream endpoint spec: empty reads, failure kind"""
+    spec["empties"] = rand_empties(rng, n_hint)
+    if spec.get("end", 0) == 1:
+        spec["end"] = rng.choice([1, 2, 3, 4, 5, 6, 7, 8, 9])
+    return spec
+
+
 def enc_len(ds):
     return sum(2 + len(d) for d in ds if d)
+
+
+RT_RNG = None
 
 
 def rt_case(ds, cut, cuts, end=0, wd=False, pauseat=-1, big=False):
     c = {"mode": "rt", "dgrams": [d.hex() for d in ds], "cut": cut, "pauseat": pauseat,
          "tunnel": {"cuts": cuts, "end": end, "wd": wd}}
+    if RT_RNG is not None and not big:
+        decorate(RT_RNG, c["tunnel"], len(cuts))
     if big:
         c["big"] = True
     return c
@@ -167,8 +192,38 @@ def gen_udp_raw(rng, n):
         uds = [rand_bytes(rng, rng.choice([0, 1, 2, 300])) for _ in range(rng.randrange(0, 4))]
         out.append({"mode": "udp", "dgrams": [d.hex() for d in uds], "uend": rng.choice([0, 0, 1]),
                     "uwfail": rng.choice([-1, -1, 0, 1, 2, 40]),
-                    "tunnel": {"data": bytes(s).hex(), "cuts": rand_cuts(rng, len(s)), "end": rng.choice([0, 0, 1]),
-                               "wd": rng.random() < 0.3, "wlimit": -1, "gate": -1}})
+                    "tunnel": decorate(rng, {"data": bytes(s).hex(), "cuts": rand_cuts(rng, len(s)), "end": rng.choice([0, 0, 1]),
+                                             "wd": rng.random() < 0.3, "wlimit": -1, "gate": -1})})
+        if out[-1]["uend"] == 1:
+            out[-1]["uend"] = rng.choice([1, 2, 3, 4, 5, 6, 7, 8, 9])
+    return out
+
+
+def gen_failure_kinds(rng, thorough):
+    """every failure kind x every kind of cut position (offset 0, inside the header, record boundary, inside the body) for
+    the tunnel end of iocopy.UDP; every failure kind for its local end and for both ends of Bidirectional"""
+    out = []
+    ds = [rand_bytes(rng, 3), rand_bytes(rng, 2), rand_bytes(rng, 300)]
+    total = enc_len(ds)
+    for kind in range(10):
+        for cut in [0, 1, 2, 4, 5, 6, 9, 10, 200, total]:
+            variants = [([], False), ([1] * total, True)] if thorough else [rng.choice([([], False), ([1] * 12 + [7], True), ([2, 3], False)])]
+            for cuts, wd in variants:
+                c = {"mode": "rt", "dgrams": [d.hex() for d in ds], "cut": cut, "pauseat": -1,
+                     "tunnel": {"cuts": cuts, "end": kind, "wd": wd, "empties": rand_empties(rng)}}
+                out.append(c)
+        # local end of the UDP relay fails with this kind while a tail is still batched
+        out.append({"mode": "udp", "dgrams": [rand_bytes(rng, 5).hex(), rand_bytes(rng, 1).hex()], "uend": kind, "uwfail": -1,
+                    "tunnel": {"data": "0001ff", "cuts": [], "end": rng.choice([0, kind]), "wd": False, "wlimit": -1, "gate": -1,
+                               "wrap": rng.choice([0, 2, 3, 4])}})
+        for side in ("a", "b"):
+            a = {"data": rand_bytes(rng, rng.choice([0, 1, 40])).hex(), "cuts": [3, 1], "end": 0, "wd": False, "wlimit": -1,
+                 "wkind": 0, "gate": -1, "wrap": rng.choice([0, 2]), "empties": rand_empties(rng)}
+            b = {"data": rand_bytes(rng, rng.choice([0, 2, 70])).hex(), "cuts": [], "end": 0, "wd": False, "wlimit": -1,
+                 "wkind": 0, "gate": -1, "wrap": rng.choice([0, 2]), "empties": rand_empties(rng)}
+            (a if side == "a" else b)["end"] = kind
+            (a if side == "a" else b)["wd"] = rng.random() < 0.5
+            out.append({"mode": "tcp", "a": a, "b": b})
     return out
 
 
@@ -182,7 +237,7 @@ def gen_tcp(rng, n, thorough):
                     "cuts": rand_cuts(rng, ln) if ln < 6000 else rng.choice([[], [1, 2, 3, 40000], [COPYBUF] * 3]),
                     "end": rng.choice([0, 0, 0, 1]), "wd": rng.random() < 0.3, "wlimit": -1, "wkind": 0, "gate": -1,
                     "wrap": rng.choice([0, 0, 1, 2, 2, 2, 3, 4, 5, 6])}
-        a, b = side(), side()
+        a, b = decorate(rng, side()), decorate(rng, side())
         k = rng.random()
         if k < 0.25:       # a write fault somewhere in one destination
             v = rng.choice([a, b])
@@ -210,6 +265,7 @@ def gen_tcp_reply_after_half_close(rng):
                 tunnel = {"data": resp.hex(), "cuts": rand_cuts(rng, len(resp)) if len(resp) < 6000 else [],
                           "end": rng.choice([0, 0, 1]), "wd": rng.random() < 0.3, "wlimit": -1, "wkind": 0,
                           "gate": rng.choice([0, 0, len(resp) // 2]), "wrap": wt}
+                decorate(rng, local), decorate(rng, tunnel)
                 out.append({"mode": "tcp", "a": local, "b": tunnel} if local_is_a else {"mode": "tcp", "a": tunnel, "b": local})
     return out
 
@@ -223,8 +279,8 @@ def gen_udp_gate(rng, n):
         s = b"".join(len(d).to_bytes(2, "big") + d for d in ds)
         uds = [rand_bytes(rng, rng.choice([1, 2, 300])) for _ in range(rng.randrange(0, 3))]
         out.append({"mode": "udp", "dgrams": [d.hex() for d in uds], "uend": rng.choice([0, 0, 1]), "uwfail": -1,
-                    "tunnel": {"data": s.hex(), "cuts": rand_cuts(rng, len(s)), "end": rng.choice([0, 0, 1]),
-                               "wd": rng.random() < 0.3, "wlimit": -1, "gate": rng.randrange(0, len(s)), "wrap": i % 7}})
+                    "tunnel": decorate(rng, {"data": s.hex(), "cuts": rand_cuts(rng, len(s)), "end": rng.choice([0, 0, 1]),
+                                             "wd": rng.random() < 0.3, "wlimit": -1, "gate": rng.randrange(0, len(s)), "wrap": i % 7})})
     return out
 
 
@@ -244,8 +300,8 @@ def gen_udp_real(rng, thorough):
             variants = [variants[0], variants[rng.randrange(1, 4)]]
         for cuts in variants:
             end = rng.choice([0, 0, 1])
-            out.append({"mode": "udpreal", "tunnel": {"data": s.hex(), "cuts": cuts, "end": end,
-                                                      "wd": rng.random() < 0.3, "wlimit": -1, "gate": -1, "wrap": 0}})
+            out.append({"mode": "udpreal", "tunnel": decorate(rng, {"data": s.hex(), "cuts": cuts, "end": end,
+                                                                    "wd": rng.random() < 0.3, "wlimit": -1, "gate": -1, "wrap": 0})})
     # a burst followed by a truncated record, and one with big datagrams
     ds, s = _records(rng, 40, [5, 9])
     out.append({"mode": "udpreal", "tunnel": {"data": (s + b"\x00\x09abc").hex(), "cuts": [], "end": 0, "wd": False,
@@ -272,8 +328,8 @@ def gen_vconn(rng, n):
             cuts = [2 + len(ds[0]), 100000]
         else:
             cuts = rand_cuts(rng, len(s))
-        out.append({"mode": "vconn", "tunnel": {"data": s.hex(), "cuts": cuts, "end": rng.choice([0, 0, 1]),
-                                                "wd": rng.random() < 0.3, "wlimit": -1, "gate": -1, "wrap": 0}})
+        out.append({"mode": "vconn", "tunnel": decorate(rng, {"data": s.hex(), "cuts": cuts, "end": rng.choice([0, 0, 1]),
+                                                              "wd": rng.random() < 0.3, "wlimit": -1, "gate": -1, "wrap": 0})})
     return out
 
 
@@ -331,7 +387,8 @@ def n_reads(ln, cuts, cap):
 def deframe_value(stream_hex, t, wfail, o, batch_path=False):
     return [0, bytes.fromhex(stream_hex), list(t.get("cuts") or []), t.get("end", 0), bool(t.get("wd")),
             None if wfail is None or wfail < 0 else [wfail],
-            [bytes.fromhex(x) for x in o["delivered"]], o["recv_err"], o["recv"], batch_path]
+            [bytes.fromhex(x) for x in o["delivered"]], o["recv_err"], o["recv"], batch_path,
+            [bool(x) for x in (t.get("empties") or [])]]
 
 
 def encode_value(dgrams, o, uend):
@@ -341,9 +398,10 @@ def encode_value(dgrams, o, uend):
 def tcp_value(c, o, rng):
     def ep(s):
         return [bytes.fromhex(s["data"]), list(s["cuts"]), s["end"], bool(s["wd"]),
-                None if s["wlimit"] < 0 else [s["wlimit"]], s["wkind"] == 1, s.get("wrap", 0)]
-    na = n_reads(len(s_a := bytes.fromhex(c["a"]["data"])), c["a"]["cuts"], COPYBUF) + 4
-    nb = n_reads(len(s_b := bytes.fromhex(c["b"]["data"])), c["b"]["cuts"], COPYBUF) + 4
+                None if s["wlimit"] < 0 else [s["wlimit"]], s["wkind"] == 1, s.get("wrap", 0),
+                [bool(x) for x in (s.get("empties") or [])]]
+    na = n_reads(len(s_a := bytes.fromhex(c["a"]["data"])), c["a"]["cuts"], COPYBUF) + 4 + len(c["a"].get("empties") or [])
+    nb = n_reads(len(s_b := bytes.fromhex(c["b"]["data"])), c["b"]["cuts"], COPYBUF) + 4 + len(c["b"].get("empties") or [])
     sched = [rng.randrange(3) for _ in range(rng.randrange(0, na + nb + 1))]
     k = rng.randrange(4)
     if k == 0:
@@ -411,13 +469,15 @@ def run(ctx, only_cases=None):
     try:
         pinfo = vlib.coq_properties("C12")
         vlib.proof_coverage(ctx, pinfo, "make -C coq Properties/C12.vo && coqc Properties/C12.v (Print Assumptions audit)",
-                            extra_obligations=8)   # the regenerated side conditions of Proofs/SideC12.v
+                            extra_obligations=10)   # the regenerated side conditions of Proofs/SideC12.v
     except vlib.Broken as b:
         broken = b
 
     if only_cases is not None:
         cases = only_cases
     else:
+        global RT_RNG
+        RT_RNG = rng
         cases = corpus()
         cases += gen_rt_exhaustive(rng, thorough)
         cases += gen_rt_random(rng, 400 if thorough else 60)
@@ -431,6 +491,7 @@ def run(ctx, only_cases=None):
         cases += gen_udp_real(rng, thorough)
         cases += gen_vconn(rng, 200 if thorough else 28)
         cases += gen_udp_gate_flush(rng, 40 if thorough else 8)
+        cases += gen_failure_kinds(rng, thorough)
     outs = run_batch(binary, cases)
 
     # (iii) the property's predicate, evaluated by the harness on the real relays' own outputs
@@ -484,7 +545,18 @@ def run(ctx, only_cases=None):
             "tcp_gate": 0, "tcp_write_fault": 0, "tcp_read_error": 0, "udp_tunnel_gate": 0,
             "tcp_gated_endpoint_wrap": {str(k): 0 for k in range(7)}, "udp_gated_tunnel_wrap": {str(k): 0 for k in range(7)},
             "real_udpconn_batch_path": 0, "real_udpconn_records_per_case": [], "real_udpconn_retried": 0, "real_udpconn_skipped": 0,
-            "real_udpvirtualconn_slow_socket": 0, "stalled_tunnel_write_during_timed_flush": 0}
+            "real_udpvirtualconn_slow_socket": 0, "stalled_tunnel_write_during_timed_flush": 0,
+            "endpoints_with_empty_reads": 0, "read_failure_kinds": {str(k): 0 for k in range(10)},
+            "half_close_enforcing_endpoints": 0}
+    for c in cases:
+        for key in ("tunnel", "a", "b"):
+            sp = c.get(key)
+            if isinstance(sp, dict) and (key == "tunnel") == (c["mode"] != "tcp"):
+                dist["endpoints_with_empty_reads"] += 1 if any(sp.get("empties") or []) else 0
+                dist["read_failure_kinds"][str(sp.get("end", 0))] += 1
+                dist["half_close_enforcing_endpoints"] += 0 if sp.get("lax") else 1
+    if True:
+        pass
     for c, o in zip(cases, outs):
         h = vlib.hashlib.sha256(json.dumps(c, sort_keys=True).encode()).hexdigest()
         distinct.add(h)
@@ -570,6 +642,11 @@ def run(ctx, only_cases=None):
         "local writer sub-slices of its re-assembly buffer, valid only until flush() returns, so the UDP side's Write must not "
         "retain p (io.Writer contract). Checked on the real mapping.UDPVirtualConn (built by the adapter's getOrCreateSession) over "
         "a gated slow socket whose sends are held until the relay has consumed the whole tunnel stream, and on a real *net.UDPConn",
+        "every stream endpoint ENFORCES its half-close (a Write after CloseWrite fails) unless the case says lax; there is no "
+        "CloseRead in the relay code, so read-side shutdown is not a dimension",
+        "read failures are sticky (every further Read reports the same error); kinds: EOF, plain, io.ErrUnexpectedEOF, "
+        "net.ErrClosed, os.ErrDeadlineExceeded, net.Error for each (Timeout, Temporary), io.ErrClosedPipe",
+        "empty reads (0, nil) are scripted per Read call index; the model consumes one flag per tread call exactly like the fake",
         "batchBuf ownership: the model's steps are Lock / take slice / Write returns / Unlock / frame-one-datagram-under-the-lock; "
         "the harness realises the critical schedule with a tunnel whose Write signals entry, stalls, and consumes p only when "
         "released (the relay's own 20 ms ticker provides the timed flush: each such case costs ~20-40 ms)",
